@@ -243,6 +243,8 @@ func (r *runner) start() {
 	}
 	st.Txs = append(st.Txs,
 		chainsim.GenesisAddPkgTx(deployer, MutPath, map[string]string{"mut.gno": MutSrc}),
+		chainsim.GenesisAddPkgTx(deployer, MutLibStatePath, map[string]string{"state.gno": MutLibStateSrc}),
+		chainsim.GenesisAddPkgTx(deployer, MutLibPath, map[string]string{"mutlib.gno": MutLibSrc}),
 		chainsim.GenesisAddPkgTx(deployer, MutUserPath, map[string]string{"mutuser.gno": MutUserSrc}),
 	)
 	t0 = time.Now()
